@@ -3,7 +3,7 @@
     Execute_spec response (C01) and nothing outside Ref_local (C02).  Plus the root-type lemma that
     carries the statement to operation definitions, and non-vacuity examples. *)
 From V Require Import Base.Util Gql.Ast Writer.Wop Ts.TsType Ts.TsDen
-     C01.Model C01.Spec C01.Corr C01.Witness C01.TsLemmas C01.TreeDen C01.Proofs C01.EnvDen C01.PlainBase C01.PlainCore
+     C01.Model C01.Spec C01.Guards C01.Corr C01.Witness C01.TsLemmas C01.TreeDen C01.Proofs C01.EnvDen C01.PlainBase C01.PlainCore
      C01.PlainMain C01.PlainSchema C01.PlainThm C01.Refuted.
 
 (** the computable guard on the model's output: branch names are declared object types and leaves
